@@ -38,38 +38,44 @@ theorem setSlice_flatten (cs : Nat) :
 def blank (t : List α) : List (Option β) := List.replicate t.length none
 
 /-- one chunk's stretch of `MapResult._value` after the chunks in `D` have been stored -/
-def cell (f : α → Except ε β) (D : List Nat) (j : Nat) (t : List α) : List (Option β) :=
+def cell (run : List α → Except ε (List β)) (D : List Nat) (j : Nat) (t : List α) : List (Option β) :=
   if j ∈ D then
-    match comprehension f t with
+    match run t with
     | .ok r => r.map some
     | .error _ => blank t
   else blank t
 
-def blocksOf (f : α → Except ε β) (tasks : List (List α)) (D : List Nat) : List (List (Option β)) :=
-  tasks.mapIdx (cell f D)
+def blocksOf (run : List α → Except ε (List β)) (tasks : List (List α)) (D : List Nat) : List (List (Option β)) :=
+  tasks.mapIdx (cell run D)
 
-theorem cell_length (f : α → Except ε β) (D : List Nat) (j : Nat) (t : List α) :
-    (cell f D j t).length = t.length := by
+/-- a batch returns one result per call (true of `list(map(...))`) -/
+def LengthPreserving (run : List α → Except ε (List β)) : Prop :=
+  ∀ t r, run t = .ok r → r.length = t.length
+
+theorem cell_length (run : List α → Except ε (List β)) (hrun : LengthPreserving run) (D : List Nat)
+    (j : Nat) (t : List α) : (cell run D j t).length = t.length := by
   unfold cell
   split
   · split
     · rename_i r hr
-      simp [comprehension_length f t r hr]
+      simp [hrun t r hr]
     · simp [blank]
   · simp [blank]
 
-theorem blocksOf_lengths (f : α → Except ε β) (tasks : List (List α)) (D : List Nat) :
-    (blocksOf f tasks D).map List.length = tasks.map List.length := by
+theorem blocksOf_lengths (run : List α → Except ε (List β)) (hrun : LengthPreserving run)
+    (tasks : List (List α)) (D : List Nat) :
+    (blocksOf run tasks D).map List.length = tasks.map List.length := by
   apply List.ext_getElem?
   intro j
   simp only [blocksOf, List.getElem?_map, List.getElem?_mapIdx]
   cases tasks[j]? with
   | none => rfl
-  | some t => simp [cell_length]
+  | some t => simp [cell_length run hrun]
 
-theorem blocksOf_uniform (f : α → Except ε β) (tasks : List (List α)) (D : List Nat) (cs : Nat)
-    (hU : Uniform cs tasks) : Uniform cs (blocksOf f tasks D) :=
-  Uniform.of_lengths cs tasks _ (blocksOf_lengths f tasks D).symm hU
+theorem blocksOf_uniform (run : List α → Except ε (List β)) (hrun : LengthPreserving run)
+    (tasks : List (List α)) (D : List Nat) (cs : Nat)
+    (hU : Uniform cs tasks) : Uniform cs (blocksOf run tasks D) :=
+  Uniform.of_lengths cs tasks _ (blocksOf_lengths run hrun tasks D).symm hU
 
 theorem flatten_blank (tasks : List (List α)) :
     ((tasks.map (blank (β := β))).flatten) = List.replicate tasks.flatten.length none := by
@@ -79,8 +85,8 @@ theorem flatten_blank (tasks : List (List α)) :
     simp only [List.map_cons, List.flatten_cons, ih, blank, List.length_append,
       List.replicate_append_replicate]
 
-theorem blocksOf_nil (f : α → Except ε β) (tasks : List (List α)) :
-    (blocksOf f tasks []).flatten = List.replicate tasks.flatten.length none := by
+theorem blocksOf_nil (run : List α → Except ε (List β)) (tasks : List (List α)) :
+    (blocksOf run tasks []).flatten = List.replicate tasks.flatten.length none := by
   rw [← flatten_blank]
   congr 1
   apply List.ext_getElem?
@@ -90,9 +96,9 @@ theorem blocksOf_nil (f : α → Except ε β) (tasks : List (List α)) :
   | none => rfl
   | some t => simp [cell]
 
-theorem blocksOf_set (f : α → Except ε β) (tasks : List (List α)) (D : List Nat) (i : Nat)
-    (t : List α) (r : List β) (ht : tasks[i]? = some t) (hr : comprehension f t = .ok r) :
-    (blocksOf f tasks D).set i (r.map some) = blocksOf f tasks (i :: D) := by
+theorem blocksOf_set (run : List α → Except ε (List β)) (tasks : List (List α)) (D : List Nat) (i : Nat)
+    (t : List α) (r : List β) (ht : tasks[i]? = some t) (hr : run t = .ok r) :
+    (blocksOf run tasks D).set i (r.map some) = blocksOf run tasks (i :: D) := by
   apply List.ext_getElem?
   intro j
   rw [List.getElem?_set]
@@ -121,13 +127,13 @@ theorem blocksOf_set (f : α → Except ε β) (tasks : List (List α)) (D : Lis
       simp [cell, this]
 
 /-- the chunk's stretch once stored successfully -/
-def full (f : α → Except ε β) (t : List α) : List (Option β) :=
-  match comprehension f t with
+def full (run : List α → Except ε (List β)) (t : List α) : List (Option β) :=
+  match run t with
   | .ok r => r.map some
   | .error _ => blank t
 
-theorem blocksOf_all (f : α → Except ε β) (tasks : List (List α)) (D : List Nat)
-    (hD : ∀ j, j < tasks.length → j ∈ D) : blocksOf f tasks D = tasks.map (full f) := by
+theorem blocksOf_all (run : List α → Except ε (List β)) (tasks : List (List α)) (D : List Nat)
+    (hD : ∀ j, j < tasks.length → j ∈ D) : blocksOf run tasks D = tasks.map (full run) := by
   apply List.ext_getElem?
   intro j
   simp only [blocksOf, List.getElem?_mapIdx, List.getElem?_map]
@@ -138,10 +144,242 @@ theorem blocksOf_all (f : α → Except ε β) (tasks : List (List α)) (D : Lis
     | some t => simp [cell, hj, full]
   · rw [List.getElem?_eq_none h]; rfl
 
+/-! ### the machine -/
+
+theorem MapResult.set_chunksize (mr : MapResult ε β) (i : Nat) (sr : Except ε (List β)) :
+    (mr.set i sr).chunksize = mr.chunksize := by
+  unfold MapResult.set; split <;> rfl
+theorem MapResult.set_numberLeft (mr : MapResult ε β) (i : Nat) (sr : Except ε (List β)) :
+    (mr.set i sr).numberLeft = mr.numberLeft - 1 := by
+  unfold MapResult.set; split <;> rfl
+theorem MapResult.set_ready (mr : MapResult ε β) (i : Nat) (sr : Except ε (List β)) :
+    (mr.set i sr).ready = (mr.ready || mr.numberLeft - 1 == 0) := by
+  unfold MapResult.set; split <;> rfl
+
+/-- the abstract content of `_success`/`_value`: the set of chunks stored so far, or the first
+    exception that arrived -/
+def track (run : List α → Except ε (List β)) (tasks : List (List α)) (st : Except ε (List Nat)) (i : Nat) :
+    Except ε (List Nat) :=
+  match st with
+  | .error e => .error e
+  | .ok D =>
+    match tasks[i]? with
+    | none => .ok D
+    | some t =>
+      match run t with
+      | .ok _ => .ok (i :: D)
+      | .error e => .error e
+
+def Rel (run : List α → Except ε (List β)) (tasks : List (List α)) (cs : Nat) (mr : MapResult ε β)
+    (st : Except ε (List Nat)) : Prop :=
+  mr.chunksize = cs ∧
+  match st with
+  | .ok D => mr.state = .ok (blocksOf run tasks D).flatten
+  | .error e => mr.state = .error e
+
+theorem Rel.set (run : List α → Except ε (List β)) (hrun : LengthPreserving run) (tasks : List (List α)) (cs : Nat) (hU : Uniform cs tasks)
+    (mr : MapResult ε β) (st : Except ε (List Nat)) (h : Rel run tasks cs mr st) (i : Nat) (t : List α)
+    (ht : tasks[i]? = some t) : Rel run tasks cs (mr.set i (run t)) (track run tasks st i) := by
+  obtain ⟨hcs, hst⟩ := h
+  refine ⟨by rw [MapResult.set_chunksize, hcs], ?_⟩
+  cases st with
+  | error e =>
+    simp only at hst
+    simp only [track, MapResult.set, hst]
+  | ok D =>
+    simp only at hst
+    have hlt : i < tasks.length := by
+      rcases Nat.lt_or_ge i tasks.length with h | h
+      · exact h
+      · rw [List.getElem?_eq_none h] at ht; cases ht
+    cases hr : run t with
+    | error e => simp only [track, ht, hr, MapResult.set, hst]
+    | ok r =>
+      simp only [track, ht, hr, MapResult.set, hst, hcs]
+      have hlen : i < (blocksOf run tasks D).length := by simpa [blocksOf] using hlt
+      rw [setSlice_flatten cs i _ _ (blocksOf_uniform run hrun tasks D cs hU) hlen,
+        blocksOf_set run tasks D i t r ht hr]
+
+/-- what `get()` yields for an abstract state -/
+def outcomeOf (run : List α → Except ε (List β)) (tasks : List (List α)) : Except ε (List Nat) → Outcome ε β
+  | .ok D => .returned (blocksOf run tasks D).flatten
+  | .error e => .raised (.task e)
+
+theorem Rel.get (run : List α → Except ε (List β)) (tasks : List (List α)) (cs : Nat) (mr : MapResult ε β)
+    (st : Except ε (List Nat)) (h : Rel run tasks cs mr st) : mr.get = outcomeOf run tasks st := by
+  obtain ⟨_, hst⟩ := h
+  cases st with
+  | error e => simp only at hst; simp [MapResult.get, outcomeOf, hst]
+  | ok D => simp only at hst; simp [MapResult.get, outcomeOf, hst]
+
+theorem doneIdxs_done (i : Nat) (rest : List Event) : doneIdxs (.done i :: rest) = i :: doneIdxs rest := rfl
+theorem doneIdxs_timeout (rest : List Event) : doneIdxs (.timeout :: rest) = doneIdxs rest := rfl
+theorem doneIdxs_died (w : Nat) (rest : List Event) : doneIdxs (.died w :: rest) = doneIdxs rest := rfl
+theorem doneIdxs_bystander (p : Nat) (rest : List Event) : doneIdxs (.bystander p :: rest) = doneIdxs rest := rfl
+
+theorem comprehension_lengthPreserving (f : α → Except ε β) : LengthPreserving (comprehension f) :=
+  fun t r h => comprehension_length f t r h
+
+/-- the chunk indices whose results the wait loop stores before it stops (at an interruption, or
+    when `left` reaches zero) -/
+def processed (ht : Bool) : Nat → List Event → List Nat
+  | 0, _ => []
+  | _ + 1, [] => []
+  | l + 1, .done i :: rest => i :: processed ht l rest
+  | l + 1, .timeout :: rest => if ht then [] else processed ht (l + 1) rest
+  | _ + 1, .died _ :: _ => []
+  | l + 1, .bystander _ :: rest => processed ht (l + 1) rest
+
+/-- **the wait loop, for every event list**: with `left` chunks outstanding, the caller sees the
+    first interruption that precedes the `left`-th completion; failing that it blocks if fewer
+    than `left` completions are scheduled, and otherwise gets the state reached after exactly
+    the first `left` completions — later events are never looked at. -/
+theorem await_spec (run : List α → Except ε (List β)) (hrun : LengthPreserving run) (tasks : List (List α)) (cs : Nat) (hU : Uniform cs tasks)
+    (ht : Bool) :
+    ∀ (evs : List Event) (left : Nat) (mr : MapResult ε β) (st : Except ε (List Nat)),
+      Rel run tasks cs mr st → mr.numberLeft = (left : Int) → mr.ready = (mr.numberLeft == 0) →
+      (∀ i ∈ processed ht left evs, i < tasks.length) →
+      awaitResultsWith run tasks ht mr evs =
+        match interruption (ε := ε) ht left evs with
+        | some err => .raised err
+        | none =>
+          if (processed ht left evs).length < left then .blocked
+          else outcomeOf run tasks ((processed ht left evs).foldl (track run tasks) st) := by
+  intro evs
+  induction evs with
+  | nil =>
+    intro left mr st hrel hleft hready _
+    cases left with
+    | zero =>
+      have : mr.ready = true := by rw [hready, hleft]; rfl
+      rw [awaitResultsWith.eq_def]
+      simp [this, interruption, processed, Rel.get run tasks cs mr st hrel]
+    | succ l =>
+      have : mr.ready = false := by rw [hready, hleft]; simp; omega
+      rw [awaitResultsWith.eq_def]
+      simp [this, interruption, processed]
+  | cons ev rest ih =>
+    intro left mr st hrel hleft hready hvalid
+    cases left with
+    | zero =>
+      have : mr.ready = true := by rw [hready, hleft]; rfl
+      rw [awaitResultsWith.eq_def]
+      simp [this, interruption, processed, Rel.get run tasks cs mr st hrel]
+    | succ l =>
+      have hnr : mr.ready = false := by rw [hready, hleft]; simp; omega
+      rw [awaitResultsWith.eq_def]
+      simp only [hnr, Bool.false_eq_true, if_false]
+      cases ev with
+      | timeout =>
+        cases ht with
+        | true => simp [interruption]
+        | false =>
+          have hv : ∀ i ∈ processed false (l + 1) rest, i < tasks.length := by
+            intro i hi; exact hvalid i (by simpa [processed] using hi)
+          simp only [Bool.false_eq_true, if_false]
+          rw [ih (l + 1) mr st hrel hleft hready hv]
+          simp only [interruption, processed, Bool.false_eq_true, if_false]
+      | died w => simp [interruption]
+      | bystander p =>
+        have hv : ∀ i ∈ processed ht (l + 1) rest, i < tasks.length := by
+          intro i hi; exact hvalid i (by simpa [processed] using hi)
+        dsimp only
+        rw [ih (l + 1) mr st hrel hleft hready hv]
+        simp only [interruption, processed] <;> rfl
+      | done i =>
+        have hi : i < tasks.length := hvalid i (by simp [processed])
+        have hti : tasks[i]? = some tasks[i] := List.getElem?_eq_getElem hi
+        have hv : ∀ j ∈ processed ht l rest, j < tasks.length := by
+          intro j hj; exact hvalid j (by simp only [processed]; exact List.mem_cons_of_mem _ hj)
+        simp only [hti]
+        rw [ih l (mr.set i (run tasks[i])) (track run tasks st i)
+          (Rel.set run hrun tasks cs hU mr st hrel i tasks[i] hti)
+          (by rw [MapResult.set_numberLeft, hleft]; omega)
+          (by rw [MapResult.set_ready, MapResult.set_numberLeft, hnr]; simp)
+          hv]
+        simp only [interruption, processed, List.length_cons, Nat.add_lt_add_iff_right,
+          List.foldl_cons]
+
+/-! ### reading the abstract state back -/
+
+theorem foldl_track_error (run : List α → Except ε (List β)) (tasks : List (List α)) (e : ε) (ds : List Nat) :
+    ds.foldl (track run tasks) (.error e) = .error e := by
+  induction ds with
+  | nil => rfl
+  | cons i rest ih => simpa [track] using ih
+
+/-- a stored exception is the exception of a chunk that completed -/
+theorem foldl_track_is_error (run : List α → Except ε (List β)) (tasks : List (List α)) :
+    ∀ (ds : List Nat) (D₀ : List Nat) (e : ε), ds.foldl (track run tasks) (.ok D₀) = .error e →
+      ∃ i ∈ ds, ∃ t, tasks[i]? = some t ∧ run t = .error e
+  | [], _, _, h => by cases h
+  | i :: rest, D₀, e, h => by
+    simp only [List.foldl_cons, track] at h
+    cases hti : tasks[i]? with
+    | none =>
+      simp only [hti] at h
+      obtain ⟨j, hj, x⟩ := foldl_track_is_error run tasks rest D₀ e h
+      exact ⟨j, by simp [hj], x⟩
+    | some t =>
+      simp only [hti] at h
+      cases hr : run t with
+      | error e' =>
+        simp only [hr, foldl_track_error] at h
+        cases h
+        exact ⟨i, by simp, t, hti, hr⟩
+      | ok r =>
+        simp only [hr] at h
+        obtain ⟨j, hj, x⟩ := foldl_track_is_error run tasks rest (i :: D₀) e h
+        exact ⟨j, by simp [hj], x⟩
+
+/-- a state without exception: every completed chunk succeeded and is recorded -/
+theorem foldl_track_is_ok (run : List α → Except ε (List β)) (tasks : List (List α)) :
+    ∀ (ds : List Nat) (D₀ D : List Nat), ds.foldl (track run tasks) (.ok D₀) = .ok D →
+      (∀ i ∈ ds, ∀ t, tasks[i]? = some t → ∃ r, run t = .ok r) ∧
+      (∀ i ∈ ds, i < tasks.length → i ∈ D) ∧ (∀ i ∈ D₀, i ∈ D)
+  | [], D₀, D, h => by
+    cases h
+    exact ⟨by simp, by simp, fun _ h => h⟩
+  | i :: rest, D₀, D, h => by
+    simp only [List.foldl_cons, track] at h
+    cases hti : tasks[i]? with
+    | none =>
+      simp only [hti] at h
+      obtain ⟨h1, h2, h3⟩ := foldl_track_is_ok run tasks rest D₀ D h
+      refine ⟨?_, ?_, h3⟩
+      · intro j hj t htj
+        rcases List.mem_cons.mp hj with rfl | hj
+        · rw [hti] at htj; cases htj
+        · exact h1 j hj t htj
+      · intro j hj hlt
+        rcases List.mem_cons.mp hj with rfl | hj
+        · rw [List.getElem?_eq_getElem hlt] at hti; cases hti
+        · exact h2 j hj hlt
+    | some t =>
+      simp only [hti] at h
+      cases hr : run t with
+      | error e' =>
+        simp only [hr, foldl_track_error] at h
+        cases h
+      | ok r =>
+        simp only [hr] at h
+        obtain ⟨h1, h2, h3⟩ := foldl_track_is_ok run tasks rest (i :: D₀) D h
+        refine ⟨?_, ?_, fun j hj => h3 j (by simp [hj])⟩
+        · intro j hj t' htj
+          rcases List.mem_cons.mp hj with rfl | hj
+          · rw [hti] at htj; cases htj; exact ⟨r, hr⟩
+          · exact h1 j hj t' htj
+        · intro j hj hlt
+          rcases List.mem_cons.mp hj with rfl | hj
+          · exact h3 j (by simp)
+          · exact h2 j hj hlt
+
+/-! ### stateless calls: a batch is a comprehension -/
+
 /-- if every chunk succeeds so does the whole batch, and the stored blocks are its result -/
 theorem flatten_full (f : α → Except ε β) :
     ∀ (tasks : List (List α)), (∀ t ∈ tasks, ∃ r, comprehension f t = .ok r) →
-      ∃ r, comprehension f tasks.flatten = .ok r ∧ (tasks.map (full f)).flatten = r.map some
+      ∃ r, comprehension f tasks.flatten = .ok r ∧ (tasks.map (full (comprehension f))).flatten = r.map some
   | [], _ => ⟨[], rfl, rfl⟩
   | t :: rest, h => by
     obtain ⟨r₁, h₁⟩ := h t (by simp)
@@ -166,224 +404,5 @@ theorem flatten_error (f : α → Except ε β) :
         · exact h
       obtain ⟨e', he'⟩ := flatten_error f rest t e hmem he
       exact ⟨e', by simp only [he']⟩
-
-/-! ### the machine -/
-
-theorem MapResult.set_chunksize (mr : MapResult ε β) (i : Nat) (sr : Except ε (List β)) :
-    (mr.set i sr).chunksize = mr.chunksize := by
-  unfold MapResult.set; split <;> rfl
-theorem MapResult.set_numberLeft (mr : MapResult ε β) (i : Nat) (sr : Except ε (List β)) :
-    (mr.set i sr).numberLeft = mr.numberLeft - 1 := by
-  unfold MapResult.set; split <;> rfl
-theorem MapResult.set_ready (mr : MapResult ε β) (i : Nat) (sr : Except ε (List β)) :
-    (mr.set i sr).ready = (mr.ready || mr.numberLeft - 1 == 0) := by
-  unfold MapResult.set; split <;> rfl
-
-/-- the abstract content of `_success`/`_value`: the set of chunks stored so far, or the first
-    exception that arrived -/
-def track (f : α → Except ε β) (tasks : List (List α)) (st : Except ε (List Nat)) (i : Nat) :
-    Except ε (List Nat) :=
-  match st with
-  | .error e => .error e
-  | .ok D =>
-    match tasks[i]? with
-    | none => .ok D
-    | some t =>
-      match comprehension f t with
-      | .ok _ => .ok (i :: D)
-      | .error e => .error e
-
-def Rel (f : α → Except ε β) (tasks : List (List α)) (cs : Nat) (mr : MapResult ε β)
-    (st : Except ε (List Nat)) : Prop :=
-  mr.chunksize = cs ∧
-  match st with
-  | .ok D => mr.state = .ok (blocksOf f tasks D).flatten
-  | .error e => mr.state = .error e
-
-theorem Rel.set (f : α → Except ε β) (tasks : List (List α)) (cs : Nat) (hU : Uniform cs tasks)
-    (mr : MapResult ε β) (st : Except ε (List Nat)) (h : Rel f tasks cs mr st) (i : Nat) (t : List α)
-    (ht : tasks[i]? = some t) : Rel f tasks cs (mr.set i (comprehension f t)) (track f tasks st i) := by
-  obtain ⟨hcs, hst⟩ := h
-  refine ⟨by rw [MapResult.set_chunksize, hcs], ?_⟩
-  cases st with
-  | error e =>
-    simp only at hst
-    simp only [track, MapResult.set, hst]
-  | ok D =>
-    simp only at hst
-    have hlt : i < tasks.length := by
-      rcases Nat.lt_or_ge i tasks.length with h | h
-      · exact h
-      · rw [List.getElem?_eq_none h] at ht; cases ht
-    cases hr : comprehension f t with
-    | error e => simp only [track, ht, hr, MapResult.set, hst]
-    | ok r =>
-      simp only [track, ht, hr, MapResult.set, hst, hcs]
-      have hlen : i < (blocksOf f tasks D).length := by simpa [blocksOf] using hlt
-      rw [setSlice_flatten cs i _ _ (blocksOf_uniform f tasks D cs hU) hlen,
-        blocksOf_set f tasks D i t r ht hr]
-
-/-- what `get()` yields for an abstract state -/
-def outcomeOf (f : α → Except ε β) (tasks : List (List α)) : Except ε (List Nat) → Outcome ε β
-  | .ok D => .returned (blocksOf f tasks D).flatten
-  | .error e => .raised (.task e)
-
-theorem Rel.get (f : α → Except ε β) (tasks : List (List α)) (cs : Nat) (mr : MapResult ε β)
-    (st : Except ε (List Nat)) (h : Rel f tasks cs mr st) : mr.get = outcomeOf f tasks st := by
-  obtain ⟨_, hst⟩ := h
-  cases st with
-  | error e => simp only at hst; simp [MapResult.get, outcomeOf, hst]
-  | ok D => simp only at hst; simp [MapResult.get, outcomeOf, hst]
-
-theorem doneIdxs_done (i : Nat) (rest : List Event) : doneIdxs (.done i :: rest) = i :: doneIdxs rest := rfl
-theorem doneIdxs_timeout (rest : List Event) : doneIdxs (.timeout :: rest) = doneIdxs rest := rfl
-theorem doneIdxs_died (w : Nat) (rest : List Event) : doneIdxs (.died w :: rest) = doneIdxs rest := rfl
-
-/-- the chunk indices whose results the wait loop stores before it stops (at an interruption, or
-    when `left` reaches zero) -/
-def processed (ht : Bool) : Nat → List Event → List Nat
-  | 0, _ => []
-  | _ + 1, [] => []
-  | l + 1, .done i :: rest => i :: processed ht l rest
-  | l + 1, .timeout :: rest => if ht then [] else processed ht (l + 1) rest
-  | _ + 1, .died _ :: _ => []
-
-/-- **the wait loop, for every event list**: with `left` chunks outstanding, the caller sees the
-    first interruption that precedes the `left`-th completion; failing that it blocks if fewer
-    than `left` completions are scheduled, and otherwise gets the state reached after exactly
-    the first `left` completions — later events are never looked at. -/
-theorem await_spec (f : α → Except ε β) (tasks : List (List α)) (cs : Nat) (hU : Uniform cs tasks)
-    (ht : Bool) :
-    ∀ (evs : List Event) (left : Nat) (mr : MapResult ε β) (st : Except ε (List Nat)),
-      Rel f tasks cs mr st → mr.numberLeft = (left : Int) → mr.ready = (mr.numberLeft == 0) →
-      (∀ i ∈ processed ht left evs, i < tasks.length) →
-      awaitResults f tasks ht mr evs =
-        match interruption (ε := ε) ht left evs with
-        | some err => .raised err
-        | none =>
-          if (processed ht left evs).length < left then .blocked
-          else outcomeOf f tasks ((processed ht left evs).foldl (track f tasks) st) := by
-  intro evs
-  induction evs with
-  | nil =>
-    intro left mr st hrel hleft hready _
-    cases left with
-    | zero =>
-      have : mr.ready = true := by rw [hready, hleft]; rfl
-      rw [awaitResults.eq_def]
-      simp [this, interruption, processed, Rel.get f tasks cs mr st hrel]
-    | succ l =>
-      have : mr.ready = false := by rw [hready, hleft]; simp; omega
-      rw [awaitResults.eq_def]
-      simp [this, interruption, processed]
-  | cons ev rest ih =>
-    intro left mr st hrel hleft hready hvalid
-    cases left with
-    | zero =>
-      have : mr.ready = true := by rw [hready, hleft]; rfl
-      rw [awaitResults.eq_def]
-      simp [this, interruption, processed, Rel.get f tasks cs mr st hrel]
-    | succ l =>
-      have hnr : mr.ready = false := by rw [hready, hleft]; simp; omega
-      rw [awaitResults.eq_def]
-      simp only [hnr, Bool.false_eq_true, if_false]
-      cases ev with
-      | timeout =>
-        cases ht with
-        | true => simp [interruption]
-        | false =>
-          have hv : ∀ i ∈ processed false (l + 1) rest, i < tasks.length := by
-            intro i hi; exact hvalid i (by simpa [processed] using hi)
-          simp only [Bool.false_eq_true, if_false]
-          rw [ih (l + 1) mr st hrel hleft hready hv]
-          simp only [interruption, processed, Bool.false_eq_true, if_false]
-      | died w => simp [interruption]
-      | done i =>
-        have hi : i < tasks.length := hvalid i (by simp [processed])
-        have hti : tasks[i]? = some tasks[i] := List.getElem?_eq_getElem hi
-        have hv : ∀ j ∈ processed ht l rest, j < tasks.length := by
-          intro j hj; exact hvalid j (by simp only [processed]; exact List.mem_cons_of_mem _ hj)
-        simp only [hti]
-        rw [ih l (mr.set i (comprehension f tasks[i])) (track f tasks st i)
-          (Rel.set f tasks cs hU mr st hrel i tasks[i] hti)
-          (by rw [MapResult.set_numberLeft, hleft]; omega)
-          (by rw [MapResult.set_ready, MapResult.set_numberLeft, hnr]; simp)
-          hv]
-        simp only [interruption, processed, List.length_cons, Nat.add_lt_add_iff_right,
-          List.foldl_cons]
-
-/-! ### reading the abstract state back -/
-
-theorem foldl_track_error (f : α → Except ε β) (tasks : List (List α)) (e : ε) (ds : List Nat) :
-    ds.foldl (track f tasks) (.error e) = .error e := by
-  induction ds with
-  | nil => rfl
-  | cons i rest ih => simpa [track] using ih
-
-/-- a stored exception is the exception of a chunk that completed -/
-theorem foldl_track_is_error (f : α → Except ε β) (tasks : List (List α)) :
-    ∀ (ds : List Nat) (D₀ : List Nat) (e : ε), ds.foldl (track f tasks) (.ok D₀) = .error e →
-      ∃ i ∈ ds, ∃ t, tasks[i]? = some t ∧ comprehension f t = .error e
-  | [], _, _, h => by cases h
-  | i :: rest, D₀, e, h => by
-    simp only [List.foldl_cons, track] at h
-    cases hti : tasks[i]? with
-    | none =>
-      simp only [hti] at h
-      obtain ⟨j, hj, x⟩ := foldl_track_is_error f tasks rest D₀ e h
-      exact ⟨j, by simp [hj], x⟩
-    | some t =>
-      simp only [hti] at h
-      cases hr : comprehension f t with
-      | error e' =>
-        simp only [hr, foldl_track_error] at h
-        cases h
-        exact ⟨i, by simp, t, hti, hr⟩
-      | ok r =>
-        simp only [hr] at h
-        obtain ⟨j, hj, x⟩ := foldl_track_is_error f tasks rest (i :: D₀) e h
-        exact ⟨j, by simp [hj], x⟩
-
-/-- a state without exception: every completed chunk succeeded and is recorded -/
-theorem foldl_track_is_ok (f : α → Except ε β) (tasks : List (List α)) :
-    ∀ (ds : List Nat) (D₀ D : List Nat), ds.foldl (track f tasks) (.ok D₀) = .ok D →
-      (∀ i ∈ ds, ∀ t, tasks[i]? = some t → ∃ r, comprehension f t = .ok r) ∧
-      (∀ i ∈ ds, i < tasks.length → i ∈ D) ∧ (∀ i ∈ D₀, i ∈ D)
-  | [], D₀, D, h => by
-    cases h
-    exact ⟨by simp, by simp, fun _ h => h⟩
-  | i :: rest, D₀, D, h => by
-    simp only [List.foldl_cons, track] at h
-    cases hti : tasks[i]? with
-    | none =>
-      simp only [hti] at h
-      obtain ⟨h1, h2, h3⟩ := foldl_track_is_ok f tasks rest D₀ D h
-      refine ⟨?_, ?_, h3⟩
-      · intro j hj t htj
-        rcases List.mem_cons.mp hj with rfl | hj
-        · rw [hti] at htj; cases htj
-        · exact h1 j hj t htj
-      · intro j hj hlt
-        rcases List.mem_cons.mp hj with rfl | hj
-        · rw [List.getElem?_eq_getElem hlt] at hti; cases hti
-        · exact h2 j hj hlt
-    | some t =>
-      simp only [hti] at h
-      cases hr : comprehension f t with
-      | error e' =>
-        simp only [hr, foldl_track_error] at h
-        cases h
-      | ok r =>
-        simp only [hr] at h
-        obtain ⟨h1, h2, h3⟩ := foldl_track_is_ok f tasks rest (i :: D₀) D h
-        refine ⟨?_, ?_, fun j hj => h3 j (by simp [hj])⟩
-        · intro j hj t' htj
-          rcases List.mem_cons.mp hj with rfl | hj
-          · rw [hti] at htj; cases htj; exact ⟨r, hr⟩
-          · exact h1 j hj t' htj
-        · intro j hj hlt
-          rcases List.mem_cons.mp hj with rfl | hj
-          · exact h3 j (by simp)
-          · exact h2 j hj hlt
 
 end ASV.Parallel
